@@ -175,9 +175,11 @@ class ElectionRecord(dict):
                         s += '\tPending:  %s (%s)\n' % (cdict[cid]['name'], cstate[cid]['vote'])
                     for cid in hcids:
                         s += '\tHopeful:  %s (%s)\n' % (cdict[cid]['name'], cstate[cid]['vote'])
-                    for cid in [cid for cid in dcids if cstate[cid]['vote'] > E.V0]:
+                    #  (a guarded vote can compare equal to zero and still print as non-zero: list it with its own value)
+                    z0 = str(E.V0)
+                    for cid in [cid for cid in dcids if cstate[cid]['vote'] > E.V0 or str(cstate[cid]['vote']) != z0]:
                         s += '\tDefeated: %s (%s)\n' % (cdict[cid]['name'], cstate[cid]['vote'])
-                    c0 = [cdict[cid]['name'] for cid in dcids if cstate[cid]['vote'] == E.V0]
+                    c0 = [cdict[cid]['name'] for cid in dcids if cstate[cid]['vote'] == E.V0 and str(cstate[cid]['vote']) == z0]
                     if c0:
                         s += '\tDefeated: %s (%s)\n' % (', '.join(c0), E.V0)
                 report.append(s)
